@@ -518,3 +518,58 @@ def r12_5(ctx):
         ctx.ob("alpha_beta_search:null-move:not-in-check", ok_check, b.where(loc),
                "null move is tried only when the side to move is not in check (passing while in check is illegal: a mated node would be scored by its material)")
     ctx.floor("null-move searches", n, 1)
+
+
+def r12_4(ctx):
+    """Coverage of the move list: every generated move is searched (no per-move skip) unless the
+    node returns by a cut-off; alpha_beta_search searches moves[0] first and then skip(1)."""
+    f = ctx.facts
+    n = 0
+    for fn in (QUIESCE, ABS, GBM):
+        b = f.body(fn)
+        ctx.note_fn(fn)
+        ex = Exprs(b)
+        loops = b.loops()
+        rec = {bb for bb, t in b.iter_calls() if callee_of(t) in (ABS, QUIESCE)}
+        for h, body_ in sorted(loops.items()):
+            # a loop over the move list: iterator item is a BoardState (by value or reference) of a Vec<BoardState>
+            item_edge = None
+            src = None
+            for x in body_:
+                if b.term(x)["k"] != "switch":
+                    continue
+                if any(x in b2 and b2 < body_ for b2 in loops.values()):
+                    continue    # belongs to a nested loop
+                d = ex.switch_discr(x)
+                if d[0] == "discr" and d[1][0] == "call" and d[1][1].endswith("::next") and "board::BoardState" in d[2]:
+                    t = b.term(x)
+                    some = [tg for v, tg in t["cases"] if v == 1]
+                    if some:
+                        item_edge = (x, some[0])
+                        src = d[1]
+            if item_edge is None:
+                continue
+            inner_rec = rec & body_
+            if not inner_rec:
+                continue    # a loop over moves that does not search (ordering loops)
+            n += 1
+            skip = b.reaches(item_edge[1], h, removed_nodes=inner_rec) or item_edge[1] == h
+            ctx.ob("%s:loop@%d:every-move-searched" % (fn.split("::")[-1], n), not skip, b.where(b.term_loc(item_edge[0])),
+                   "every move taken from the list reaches the recursive search before the next one is taken%s" % (
+                       "" if not skip else ": NOT so — some moves are skipped (`continue`), so the value is no longer the minimax value over the engine's own move generation"))
+            if fn == ABS:
+                # iterator must be moves.iter().skip(1) and moves[0] searched before the loop
+                sl = data_slice(ex, strip_refs(src[2][0]))
+                skips = [y for y in sl if y[0] == "call" and y[1].endswith("::skip")]
+                ok = len(skips) == 1 and skips[0][2][1] == ("const", 1)
+                ctx.ob("alpha_beta_search:rest-loop-starts-at-second-move", ok, b.where(b.term_loc(h)), "the loop over the remaining moves is `.skip(1)`: %s" % [show_expr(y[2][1], b) for y in skips])
+                first = []
+                for bb in rec - body_:
+                    a = ex.call_args(bb)
+                    bpos = one_param(b, "&board::BoardState") - 1
+                    e = strip_refs(a[bpos])
+                    if e[0] == "call" and e[1].endswith("::index") and e[2][1] == ("const", 0):
+                        first.append(bb)
+                ctx.ob("alpha_beta_search:first-move-searched-first", len(first) == 1 and b.node_dominates(first[0], h), b.where(b.term_loc(first[0])) if first else b.file,
+                       "moves[0] is searched with the full window before the loop over the rest")
+    ctx.floor("searching loops over move lists", n, 3)
